@@ -6,6 +6,6 @@ CONSTANTS
   GPrec = 6 ByteMax = 255 DecLimit = 127
   PrintTypes = {} IntFormats = {} FltFormats = {} Lefts = {} FltLefts = {}
   FmtAlphabet = {} FmtLen = 0 DestAlphabet = {} DestLen = 0 DestSeps = {} DestMax = {}
-  RDsts = {} RBases = {} RAlphabet = {} RLen = 0 VecTypes = {} VecLen = 0
+  RDsts = {} RBases = {} RAlphabet = {} RLen = 0 VecTypes = {} VecLen = 0 SinkTypes = {} SinkCaps = {} SinkLefts = {}
 POSTCONDITION TraceAccepted
 CHECK_DEADLOCK FALSE
